@@ -1,6 +1,7 @@
 package codegen
 
 import (
+	"log"
 	"strconv"
 
 	"github.com/HobbyOSs/gosk/pkg/ocode"
@@ -14,7 +15,8 @@ func handleINT(ocode ocode.Ocode) []byte {
 
 	// 割り込み番号を取得
 	if len(ocode.Operands) != 1 {
-		panic("INT instruction requires one operand")
+		log.Printf("error: INT instruction requires one operand, got %d", len(ocode.Operands))
+		return nil
 	}
 
 	// 0xを除去して16進数として解析
@@ -23,9 +25,11 @@ func handleINT(ocode ocode.Ocode) []byte {
 		intNum = intNum[2:]
 	}
 	// Parse as decimal (base 10)
-	num, err := strconv.ParseInt(intNum, 10, 8) // Change base to 10
+	// 割り込み番号は符号なし 8 ビット (0..255)
+	num, err := strconv.ParseUint(intNum, 10, 8)
 	if err != nil {
-		panic("Failed to parse INT number (decimal): " + err.Error()) // Update panic message
+		log.Printf("error: Failed to parse INT number (decimal 0..255): %v", err)
+		return nil
 	}
 
 	// 割り込み番号を追加
